@@ -54,7 +54,7 @@ Definition realised_tags (m : mutation) (o : step_obs) : list string :=
                   | Some s => kind_eqb (si_kind s) KFile && has_attrs_b m s
                   | None => false end))
            (* a path written with a trailing slash: the file is nested inside a
-              directory of that name (finding C13-F6) *)
+              directory of that name (was finding C13-F6, fixed by 10a6051; the tag stays armed) *)
            (if ends_with_slash (m_path m) then "viol:empty-file-trailing-slash-nests-file"
             else "viol:empty-file-not-present-with-perm-owner") ++
     (* present as declared but with content (finding C13-F4: a truncated
